@@ -75,6 +75,15 @@ def envOf (decode : String → Inst → Nat) (sch : Sch) (buf : Inst) : Env := f
   | some (_, anch) => (readCounter decode buf anch c).getD 0
   | none => 0
 
+/-- ONE `LocationMaker` object used for several records (`maker.from_instance(r)` again and again; `self.anchors` is never
+emptied): the anchors it holds afterwards and, per record, the size it computed (`none`: the walk raised) -/
+def makerRun (decode : String → Inst → Nat) (sch : Sch) : Anch → List Inst → Anch × List (Option Nat)
+  | st, [] => (st, [])
+  | st, r :: rs =>
+    match walkM decode r sch 0 st with
+    | some (sz, st') => let (fin, outs) := makerRun decode sch st' rs; (fin, some sz :: outs)
+    | none => let (fin, outs) := makerRun decode sch st rs; (fin, none :: outs)
+
 open Stingray.Recfm in
 /-- `COBOL_EBCDIC_Sheet.row_iter` over `RECFM_N`: each buffer is handed to a row, the row's length
 is announced with `used()`, the reader advances.  Returns the records delivered (the first
